@@ -186,8 +186,8 @@ def _canary_measure(e):
     if "kind" in e:  # sliver: a centroid 2e-9 * a off
         e["dxu"] += 3 * 4503599
         return e
-    if not e["g"]:
-        return None
+    if not e["g"] or e.get("noarea"):
+        return None     # nothing recorded, or the area is not judged for this image (a tiny image at a large offset)
     e["area2"] += 1
     return e
 
